@@ -295,6 +295,93 @@ def handlePut (hash : β → δ) (size : β → Nat) (vols : List (Vol δ β)) (
     | .ok n => ({ status := 200, replicas := some n }, r.2.1, r.2.2)
     | o => ({ status := putStatus o, replicas := none }, r.2.1, r.2.2)
 
+/-! ### The environment of a request: buffer pool, client disconnect, short body
+
+`handleGET`/`handlePUT` first wait for a buffer (`getBufferWithContext`: 503 if the client goes away
+first), `GetBlock` looks at `ctx.Done()` after every volume read, `handlePUT` answers 500 if the body
+is shorter than its Content-Length, `CompareAndTouch`/`PutBlock` look at `ctx.Err()` after every
+volume operation (ErrClientDisconnect, 503). Where a disconnect is noticed is decided by the
+environment; the model takes it as an input and the theorems hold for every value of it. -/
+
+/-- Environment of a GET/HEAD. -/
+structure GetEnv where
+  /-- a buffer was obtained before the client went away -/
+  bufOk : Bool
+  /-- the client is found gone at the `ctx.Done()` check after the k-th volume read (0-based) -/
+  goneAfter : Option Nat
+
+/-- the undisturbed environment -/
+def GetEnv.calm : GetEnv := { bufOk := true, goneAfter := none }
+
+inductive GetResultE (β : Type) where
+  | ok (b : β)
+  | err (e : GetErr)
+  | disconnected           -- ErrClientDisconnect 503
+
+/-- `GetBlock`'s loop with the `ctx.Done()` check after each `vol.Get`. -/
+def getLoopEnv (hash : β → δ) (h : δ) : List (ReadResult β) → GetErr → Option Nat → GetResultE β
+  | [], e, _ => .err e
+  | r :: rest, e, gone =>
+    if gone = some 0 then .disconnected
+    else
+      let gone' := gone.map (fun k => k - 1)
+      match r with
+      | .notFound => getLoopEnv hash h rest e gone'
+      | .tooLong => getLoopEnv hash h rest e gone'
+      | .data b => if hash b = h then .ok b else getLoopEnv hash h rest .diskHash gone'
+
+/-- `handleGET` in environment `env`. -/
+def handleGetEnv (hash : β → δ) (size : β → Nat) (env : GetEnv) (vols : List (Vol δ β)) (h : δ) : GetResp β :=
+  if !env.bufOk then { status := 503, contentLength := none, body := none }
+  else match getLoopEnv hash h ((allReadable vols).map (fun v => volRead size v h)) .notFound env.goneAfter with
+    | .ok b => { status := 200, contentLength := some (size b), body := some b }
+    | .err e => { status := getErrStatus e, contentLength := none, body := none }
+    | .disconnected => { status := 503, contentLength := none, body := none }
+
+/-- Where a PUT finds its client gone. -/
+inductive PutGone where
+  | never
+  /-- in or right after `CompareAndTouch`, before any `Put`: 503, nothing written -/
+  | beforeWrite
+  /-- during the `Put`: `putWithPipe` returns `ctx.Err()` without waiting for `WriteBlock`, which may
+  (`landed`) or may not still replace the file; 503 either way -/
+  | duringWrite (landed : Bool)
+deriving DecidableEq, Repr
+
+/-- Environment of a PUT. -/
+structure PutEnv where
+  bufOk : Bool
+  /-- `io.ReadFull(req.Body, buf)` delivered Content-Length bytes -/
+  bodyOk : Bool
+  gone : PutGone
+
+def PutEnv.calm : PutEnv := { bufOk := true, bodyOk := true, gone := .never }
+
+/-- `handlePUT` in environment `env`: the early exits of `handlePut`, then 503 without a buffer,
+500 on a short body, then `PutBlock` with the disconnect checks. A disconnect noticed while the
+digest matches and nothing was touched yet gives 503; one noticed during the write gives 503 with
+the write landed or not. A mismatching body is refused with 422 before `ctx` is looked at. -/
+def handlePutEnv (hash : β → δ) (size : β → Nat) (env : PutEnv) (vols : List (Vol δ β)) (rr : Nat) (h : δ)
+    (body : β) (clKnown : Bool) : PutResp × List (Vol δ β) × Nat :=
+  if !clKnown then ({ status := 411, replicas := none }, vols, rr)
+  else if size body > blockSize then ({ status := 413, replicas := none }, vols, rr)
+  else if (allWritable vols).length = 0 then ({ status := 503, replicas := none }, vols, rr)
+  else if !env.bufOk then ({ status := 503, replicas := none }, vols, rr)
+  else if !env.bodyOk then ({ status := 500, replicas := none }, vols, rr)
+  else match env.gone with
+    | .never => handlePut hash size vols rr h body clKnown
+    | .beforeWrite =>
+      if hash body ≠ h then ({ status := 422, replicas := none }, vols, rr)
+      else ({ status := 503, replicas := none }, vols, rr)
+    | .duringWrite landed =>
+      if hash body ≠ h then ({ status := 422, replicas := none }, vols, rr)
+      else match compareAndTouch hash size h body vols with
+        | .touched r => ({ status := 200, replicas := some r }, vols, rr)
+        | .collision => ({ status := 500, replicas := none }, vols, rr)
+        | .miss =>
+          let r := putNew h body vols rr
+          ({ status := 503, replicas := none }, if landed then r.2.1 else vols, r.2.2)
+
 end
 
 /-! ### Byte level: the read loop of collision.go and the bounded read of pipe_adapters.go -/
